@@ -1,6 +1,6 @@
 """Evaluate seeded mutations: for each <dir>/m<k>.diff apply it to /repo, run the demo and ./check <prop>, restore /repo,
 and file the confirmed ones under /verif/seeded/<prop>-<name>/ (patch.diff, demo.py, meta.json).
-usage: seedrun.py <prop> <dir> [--tier quick|thorough] [--also Cxx,Cyy]"""
+usage: seedrun.py <prop> <dir> [--tier quick|thorough] [--also Cxx,Cyy] [--tag r3]"""
 import glob
 import json
 import os
@@ -18,6 +18,7 @@ def main():
     prop, d = sys.argv[1], sys.argv[2]
     tier = sys.argv[sys.argv.index("--tier") + 1] if "--tier" in sys.argv else "quick"
     also = sys.argv[sys.argv.index("--also") + 1].split(",") if "--also" in sys.argv else []
+    tag = sys.argv[sys.argv.index("--tag") + 1] if "--tag" in sys.argv else ""
     assert sh("git -C /repo status --porcelain").stdout.strip() == "", "/repo is not clean"
     for diff in sorted(glob.glob(os.path.join(d, "m*.diff"))):
         k = os.path.basename(diff)[:-5]
@@ -59,7 +60,7 @@ def main():
             sh("git -C /repo checkout -- .")
         detected = res[prop]["exit"] != 0
         print(f"{prop} {k}: demo[{demo_out[:80]}] suite[{suite}] -> " + "; ".join(f"{p}: exit {v['exit']} {v.get('what', '')[:120]}" for p, v in res.items()))
-        dest = f"/verif/seeded/{prop}-{k}"
+        dest = f"/verif/seeded/{prop}-{tag}{k}"
         os.makedirs(dest, exist_ok=True)
         shutil.copy(diff, os.path.join(dest, "patch.diff"))
         if os.path.exists(demo):
